@@ -296,4 +296,146 @@ theorem unroll_roll_slice_adjoint_total (D R C sr sc fr fc : Nat) (img xs : List
     exact hin i (by rw [← hxs]; exact hi)
   exact ⟨_, _, hU, hB, unroll_roll_slice_adjoint D R C sr sc fr fc _ _ img xs _ _ himg hxs hin hU hB⟩
 
+/-! ### the batch loop of `unroll_blocks` / `roll_blocks` -/
+
+/-- the batched gather: image `p / N` of the batch, position `idx (p % N)` inside it -/
+def gatherB (idx : Nat → Nat) (G N nB : Nat) (iv : List S) : List S :=
+  (List.range (nB * N)).map (fun p => iv.getD (p / N * G + idx (p % N)) zero)
+
+/-- the batched scatter-add: one `rollPure` per block of the delta, results concatenated -/
+def scatterB (idx : Nat → Nat) (G N nB : Nat) (xv : List S) : List S :=
+  ((List.range nB).map (fun n => rollPure idx ((xv.drop (n * N)).take N) 0 (List.replicate G zero))).flatten
+
+theorem getD_take_lt (l : List S) (k i : Nat) (h : i < k) : (l.take k).getD i zero = l.getD i zero := by
+  simp [List.getD_eq_getElem?_getD, List.getElem?_take, h]
+
+theorem getD_drop_add (l : List S) (k i : Nat) : (l.drop k).getD i zero = l.getD (k + i) zero := by
+  simp [List.getD_eq_getElem?_getD, List.getElem?_drop]
+
+/-- **the batch loop**: block-wise scatter-add is the transpose of the block-wise gather -/
+theorem batch_gather_scatter_adjoint (idx : Nat → Nat) (G N : Nat) (hN : 0 < N) (hin : ∀ q, q < N → idx q < G) :
+    ∀ (nB : Nat) (iv xv : List S), iv.length = nB * G → xv.length = nB * N →
+      dot (gatherB idx G N nB iv) xv = dot iv (scatterB idx G N nB xv)
+  | 0, iv, xv, hi, hx => by
+    have e1 : iv = [] := List.length_eq_zero_iff.mp (by simpa using hi)
+    subst e1
+    simp [gatherB, scatterB, dot_nil_left]
+  | nB + 1, iv, xv, hi, hx => by
+    have hGle : G ≤ iv.length := by rw [hi, Nat.succ_mul]; omega
+    have hNle : N ≤ xv.length := by rw [hx, Nat.succ_mul]; omega
+    have hg : gatherB idx G N (nB + 1) iv = gatherL idx (iv.take G) 0 N ++ gatherB idx G N nB (iv.drop G) := by
+      unfold gatherB
+      rw [Nat.succ_mul, Nat.add_comm (nB * N) N, List.range_add, List.map_append, List.map_map, gatherL_eq]
+      congr 1
+      · apply List.map_congr_left
+        intro p hp
+        have hp' : p < N := List.mem_range.mp hp
+        rw [Nat.div_eq_of_lt hp', Nat.mod_eq_of_lt hp', Nat.zero_mul, Nat.zero_add, Nat.zero_add,
+          getD_take_lt _ _ _ (hin p hp')]
+      · apply List.map_congr_left
+        intro p _
+        simp only [Function.comp]
+        rw [Nat.add_div_left _ hN, Nat.add_mod_left, getD_drop_add, Nat.succ_mul, Nat.add_comm (p / N * G) G, Nat.add_assoc]
+    have hs : scatterB idx G N (nB + 1) xv
+        = rollPure idx (xv.take N) 0 (List.replicate G zero) ++ scatterB idx G N nB (xv.drop N) := by
+      unfold scatterB
+      rw [List.range_succ_eq_map, List.map_cons, List.flatten_cons, List.map_map]
+      congr 1
+      · simp
+      · congr 1
+        apply List.map_congr_left
+        intro n _
+        simp only [Function.comp, List.drop_drop]
+        rw [Nat.succ_mul, Nat.add_comm (n * N) N]
+    rw [hg, hs]
+    conv => lhs; rw [← List.take_append_drop N xv]
+    conv => rhs; rw [← List.take_append_drop G iv]
+    have hl1 : (gatherL idx (iv.take G) 0 N).length = (xv.take N).length := by
+      rw [gatherL_eq]; simp [hNle]
+    have hl2 : (iv.take G).length = (rollPure idx (xv.take N) 0 (List.replicate G zero)).length := by
+      rw [rollPure_length]; simp [hGle]
+    rw [dot_append _ _ _ _ hl1, dot_append _ _ _ _ hl2,
+      batch_gather_scatter_adjoint idx G N hN hin nB (iv.drop G) (xv.drop N)
+        (by rw [List.length_drop, hi, Nat.succ_mul]; omega) (by rw [List.length_drop, hx, Nat.succ_mul]; omega)]
+    congr 1
+    have hlen : (xv.take N).length = N := by simp [hNle]
+    have := rollPure_adjoint idx (iv.take G) (xv.take N) 0 (List.replicate G zero) (by simp [hGle])
+      (by intro i hi'; rw [hlen] at hi'; rw [List.length_replicate, Nat.zero_add]; exact hin i hi')
+    rw [this, dot_replicate_zero, AddLaws.zero_add, hlen]
+/-- the closed form of `roll_blocks` with accumulation on a delta of the unrolled shape: block-wise scatter-add -/
+theorem rollBlocks_closed (x : Tensor S) (B : List Nat) (D R C sr sc fr fc : Nat)
+    (hposB : ∀ d ∈ B, 1 ≤ d) (hD : 1 ≤ D) (hR : 1 ≤ R) (hC : 1 ≤ C)
+    (hfr : fr ≤ R) (hfc : fc ≤ C) (hfr1 : 1 ≤ fr) (hfc1 : 1 ≤ fc) (hsr : 1 ≤ sr) (hsc : 1 ≤ sc)
+    (hx : Shaped (B ++ [((R - fr) / sr + 1) * ((C - fc) / sc + 1), D * (fr * fc)]) x) :
+    rollBlocks x D R C sr sc fr fc true = .ok ⟨B ++ [D, R, C],
+      scatterB (rollIdx D R C sr sc fr fc ((C - fc) / sc + 1)) (D * R * C)
+        (((R - fr) / sr + 1) * ((C - fc) / sc + 1) * (fr * fc) * D) (prod B) x.vals⟩ := by
+  generalize hcount : ((R - fr) / sr + 1) * ((C - fc) / sc + 1) = count at *
+  have hposT : ∀ d ∈ [D, R, C], 1 ≤ d := by
+    intro d hd; simp at hd; rcases hd with rfl | rfl | rfl <;> assumption
+  have hGin : prod [count, D * (fr * fc)] = count * (fr * fc) * D := by
+    rw [prod2]; simp only [Nat.mul_comm, Nat.mul_left_comm]
+  let F : List S → List S := fun blk =>
+    rollPure (rollIdx D R C sr sc fr fc ((C - fc) / sc + 1)) (blk.take (count * (fr * fc) * D)) 0
+      (List.replicate (D * R * C) zero)
+  have hopF : ∀ blk : List S, blk.length = prod [count, D * (fr * fc)] →
+      rollOp true D R C sr sc fr fc count ((C - fc) / sc + 1) [blk] = .ok (F blk) ∧ (F blk).length = prod [D, R, C] := by
+    intro blk hb
+    rw [hGin] at hb
+    refine ⟨?_, by simp [F, rollPure_length, prod3]⟩
+    have hnl : ¬ blk.length < count * (fr * fc) * D := by omega
+    simp only [rollOp, hnl, if_false]
+    apply rollLoop_ok
+    intro i hi
+    simp only [List.length_take, hb, Nat.min_self] at hi
+    simp only [List.length_replicate, Nat.zero_add]
+    exact rollIdx_lt D R C sr sc fr fc i hfr hfc hfr1 hfc1 hD (by rw [hcount]; exact hi)
+  unfold rollBlocks
+  have d2 : dimFromEnd x.dims 2 = .ok count := by rw [hx.1]; exact dimFromEnd_snoc2_2 _ _ _
+  have c1 : ¬ C < fc := by omega
+  have c2 : ¬ sc = 0 := by omega
+  have htk : x.dims.take (x.dims.length - 2) = B := by rw [hx.1]; simp
+  simp only [d2, c1, c2, bind, Except.bind, pure, Except.pure, if_false, htk]
+  have := slicedOp_blocks x B [count, D * (fr * fc)] [D, R, C]
+    (rollOp true D R C sr sc fr fc count ((C - fc) / sc + 1)) F hx hposB hposT hopF
+  simp only [List.length_cons, List.length_nil] at this
+  rw [this]
+  simp only [scatterB, F, hGin]
+  congr 3
+  apply List.map_congr_left
+  intro n _
+  rw [List.take_take, Nat.min_self]
+
+/-- **`unroll_blocks` on a whole batch: the closure is the transpose of the forward map.**  For every image
+    batch `B ++ [D, R, C]`, every window that fits and all strides, both operations return and
+    `⟨unroll_blocks(a), x⟩ = ⟨a, roll_blocks(x)⟩` for every delta `x` of the unrolled shape. -/
+theorem unrollBlocks_closure_adjoint (a x : Tensor S) (B : List Nat) (D R C sr sc fr fc : Nat)
+    (hda : a.dims = B ++ [D, R, C]) (hwa : a.WF)
+    (hfr : fr ≤ R) (hfc : fc ≤ C) (hfr1 : 1 ≤ fr) (hfc1 : 1 ≤ fc) (hsr : 1 ≤ sr) (hsc : 1 ≤ sc)
+    (hx : Shaped (B ++ [((R - fr) / sr + 1) * ((C - fc) / sc + 1), D * (fr * fc)]) x) :
+    ∃ U back : Tensor S, unrollBlocks a sr sc fr fc = .ok U ∧ rollBlocks x D R C sr sc fr fc true = .ok back ∧
+      back.dims = a.dims ∧ dot U.vals x.vals = dot a.vals back.vals := by
+  have hposA : ∀ d ∈ B ++ [D, R, C], 1 ≤ d := by rw [← hda]; exact hwa.1
+  have hposB : ∀ d ∈ B, 1 ≤ d := fun d hd => hposA d (by simp [hd])
+  have hD : 1 ≤ D := hposA D (by simp)
+  have hR : 1 ≤ R := hposA R (by simp)
+  have hC : 1 ≤ C := hposA C (by simp)
+  have hlen : a.vals.length = prod B * (D * R * C) := by rw [← hwa.2, hda, prod_append, prod3]
+  have hU := unroll_flat B D R C sr sc fr fc a.vals hposB hD hR hC hlen hfr hfc hfr1 hfc1 hsr hsc
+  have ea : (⟨B ++ [D, R, C], a.vals⟩ : Tensor S) = a := by cases a; simp at hda; subst hda; rfl
+  rw [ea] at hU
+  have hB := rollBlocks_closed x B D R C sr sc fr fc hposB hD hR hC hfr hfc hfr1 hfc1 hsr hsc hx
+  refine ⟨_, _, hU, hB, hda.symm, ?_⟩
+  generalize hcount : ((R - fr) / sr + 1) * ((C - fc) / sc + 1) = count at *
+  have hN : count * D * (fr * fc) = count * (fr * fc) * D := Nat.mul_right_comm _ _ _
+  have hcount1 : 1 ≤ count := by rw [← hcount]; exact Nat.mul_pos (Nat.succ_pos _) (Nat.succ_pos _)
+  have hNpos : 0 < count * (fr * fc) * D := Nat.mul_pos (Nat.mul_pos hcount1 (Nat.mul_pos hfr1 hfc1)) hD
+  have hxl : x.vals.length = prod B * (count * (fr * fc) * D) := by
+    rw [hx.2, prod_append, prod2, ← hN, Nat.mul_assoc count]
+  have := batch_gather_scatter_adjoint (rollIdx D R C sr sc fr fc ((C - fc) / sc + 1)) (D * R * C) (count * (fr * fc) * D) hNpos
+    (fun q hq => rollIdx_lt D R C sr sc fr fc q hfr hfc hfr1 hfc1 hD (by rw [hcount]; exact hq)) (prod B) a.vals x.vals hlen hxl
+  simp only [gatherB] at this
+  simp only [hN, unrollIdx_eq_rollIdx]
+  exact this
+
 end Corgi
